@@ -1,7 +1,8 @@
-(* Every call handed to Add completes at most once under every interleaving of Add, Run and Close; exactly once
-   when no Add is between its closed-check and its send at the moment of Close. The remaining overlap (an Add that has
-   passed the check, is not yet parked in the channel, and enqueues after Run has drained and returned) leaves the call
-   without completion: refuted by witness. *)
+(* Every call handed to Add completes at most once under every interleaving of Add, Run and Close, and -- with the
+   drain rule of the code as it is (Run returns only when no Add is between its increment and its decrement) -- exactly
+   once, once Run and every started Add have returned.  With the drain rule of the code as it was found (Run returns as
+   soon as the queue is empty) an Add that has passed the closed check and enqueues after Run has returned leaves its
+   call without completion: refuted by witness; what held of that rule is kept as a partial theorem. *)
 From Coq Require Import List NArith Bool Lia Arith Permutation.
 From Oxia.Client Require Import ShutdownModel.
 Import ListNotations.
@@ -32,7 +33,7 @@ Proof.
   rewrite !cnt_cons, (IH r' eq_refl x). lia.
 Qed.
 
-Lemma sd_pop_cnt s c q' ps : sd_pop s = Some (c, q', ps) ->
+Lemma sd_pop_cnt s c q' ps snt : sd_pop s = Some (c, q', ps, snt) ->
   (forall x, cnt x (sd_parked s) + cnt x (sd_q s) = one x c + cnt x ps + cnt x q') /\
   (length q' <= length (sd_q s)) /\
   (sd_parked s <> [] -> length q' = length (sd_q s)) /\ (sd_parked s = [] -> ps = []).
@@ -52,25 +53,28 @@ Section Shutdown.
     (sd_closed s = true -> sd_overlapped s = false -> sd_inflight s = []) /\
     (sd_run_done s = true \/ sd_draining s = true -> sd_closed s = true) /\
     (sd_run_done s = true \/ sd_draining s = true -> sd_batch s = []) /\
-    (sd_run_done s = true -> sd_overlapped s = false -> sd_parked s = [] /\ sd_q s = []).
+    (sd_run_done s = true -> sd_overlapped s = false -> sd_parked s = [] /\ sd_q s = []) /\
+    (sd_wait_for_adders cfg = true -> sd_run_done s = true ->
+       sd_inflight s = [] /\ sd_parked s = [] /\ sd_q s = []).
 
-  Ltac inv6 :=
-    refine (conj _ (conj _ (conj _ (conj _ (conj _ _)))));
-    cbn [sd_q sd_parked sd_inflight sd_closed sd_batch sd_draining sd_run_done sd_overlapped].
+  Ltac inv7 :=
+    refine (conj _ (conj _ (conj _ (conj _ (conj _ (conj _ _))))));
+    cbn [sd_started sd_sent sd_failing sd_q sd_parked sd_inflight sd_closed sd_batch sd_draining sd_run_done sd_overlapped].
 
   Ltac triv :=
     try solve [ assumption | reflexivity | discriminate | lia | tauto | congruence
               | intros [?|?]; solve [discriminate | tauto | congruence | auto]
               | intros; solve [discriminate | congruence | tauto | lia | auto] ].
 
-  Definition ev_checked (ev : sdev) : list N := match ev with EAddCheck c => [c] | _ => [] end.
+  Definition ev_submitted (ev : sdev) : list N := match ev with EAddStart c => [c] | _ => [] end.
 
   Definition conserved (s s' : sdstate) (ev : sdev) (o : list (N * sdres)) : Prop :=
-    forall x, cnt x (sd_pending s) + cnt x (ev_checked ev) = cnt x (done_ids o) + cnt x (sd_pending s').
+    forall x, cnt x (sd_pending s) + cnt x (ev_submitted ev) = cnt x (done_ids o) + cnt x (sd_pending s').
 
   Ltac cons_tac :=
     unfold conserved, sd_pending;
-    cbn [sd_q sd_parked sd_inflight sd_closed sd_batch sd_draining sd_run_done sd_overlapped ev_checked done_ids map fst];
+    cbn [sd_started sd_sent sd_failing sd_q sd_parked sd_inflight sd_closed sd_batch sd_draining sd_run_done sd_overlapped
+         ev_submitted done_ids map fst];
     rewrite ?done_ids_dones; intros x; cnt_norm.
 
   Lemma sd_step_ok s ev :
@@ -79,40 +83,61 @@ Section Shutdown.
     let o := snd (sd_step cfg s ev) in
     sd_inv s' /\ conserved s s' ev o.
   Proof.
-    intros (Hc & Hb & Ha & He & Hf & Hg).
-    assert (Hnoop : sd_inv s /\ forall e, ev_checked e = [] -> conserved s s e []).
-    { split; [inv6; triv|]. intros e E. unfold conserved. intros x. rewrite E. cbn. cnt_norm. lia. }
+    intros (Hc & Hb & Ha & He & Hf & Hg & Hn).
+    assert (Hnoop : sd_inv s /\ forall e, ev_submitted e = [] -> conserved s s e []).
+    { split; [inv7; triv|]. intros e E. unfold conserved. intros x. rewrite E. cbn. cnt_norm. lia. }
     destruct Hnoop as (Hsame & Hcons).
-    destruct ev as [c|c| | | | | |]; cbn [sd_step].
+    destruct ev as [c|c|c|c|c| | | | | |]; cbn [sd_step].
+    - (* start *)
+      cbn [fst snd]. split; [inv7; triv|]. cons_tac. lia.
     - (* check *)
+      destruct (remove1 c (sd_started s)) as [rest|] eqn:R; cbn [fst snd]; [|split; [exact Hsame|apply Hcons; reflexivity]].
+      pose proof (remove1_cnt _ _ _ R) as P.
       destruct (sd_closed s) eqn:C; cbn [fst snd].
-      + split; [exact Hsame|]. cons_tac. lia.
-      + split; [inv6; triv|]. cons_tac. lia.
+      + split; [inv7; triv|]. cons_tac. specialize (P x). lia.
+      + split.
+        * inv7; triv;
+            first [ solve [intros [H|H]; [specialize (He (or_introl H))|specialize (He (or_intror H))]; congruence]
+                  | solve [intros W H; specialize (He (or_introl H)); congruence]
+                  | solve [intros H; specialize (He (or_introl H)); congruence] ].
+        * cons_tac. specialize (P x). lia.
     - (* send *)
       destruct (remove1 c (sd_inflight s)) as [rest|] eqn:R; cbn [fst snd]; [|split; [exact Hsame|apply Hcons; reflexivity]].
       pose proof (remove1_cnt _ _ _ R) as P.
       assert (Hno : sd_closed s = true -> sd_overlapped s = false -> False).
       { intros C O. rewrite (Ha C O) in R. discriminate. }
+      assert (Hno2 : sd_wait_for_adders cfg = true -> sd_run_done s = true -> False).
+      { intros W D. destruct (Hn W D) as (E & _). rewrite E in R. discriminate. }
       destruct (Nat.ltb_spec (length (sd_q s)) (sd_cap cfg)) as [Hlt|Hge]; cbn [fst snd].
       + split.
-        * inv6; triv;
+        * inv7; triv;
             first [ solve [rewrite app_length; cbn; lia]
                   | solve [intros Hp; specialize (Hb Hp); lia]
                   | solve [intros C O; exfalso; auto]
-                  | solve [intros D O; exfalso; apply Hno; auto] ].
+                  | solve [intros D O; exfalso; apply Hno; auto]
+                  | solve [intros W D; exfalso; auto] ].
         * cons_tac. specialize (P x). lia.
       + split.
-        * inv6; triv;
+        * inv7; triv;
             first [ solve [intros C O; exfalso; auto]
-                  | solve [intros D O; exfalso; apply Hno; auto] ].
+                  | solve [intros D O; exfalso; apply Hno; auto]
+                  | solve [intros W D; exfalso; auto] ].
         * cons_tac. specialize (P x). lia.
+    - (* finish *)
+      destruct (remove1 c (sd_sent s)) as [rest|] eqn:R; cbn [fst snd]; [|split; [exact Hsame|apply Hcons; reflexivity]].
+      split; [inv7; triv|]. cons_tac. lia.
+    - (* fail *)
+      destruct (remove1 c (sd_failing s)) as [rest|] eqn:R; cbn [fst snd]; [|split; [exact Hsame|apply Hcons; reflexivity]].
+      pose proof (remove1_cnt _ _ _ R) as P.
+      split; [inv7; triv|]. cons_tac. specialize (P x). lia.
     - (* Run receives a call *)
       destruct (sd_run_done s || sd_draining s) eqn:RD; cbn [fst snd]; [split; [exact Hsame|apply Hcons; reflexivity]|].
       apply orb_false_iff in RD. destruct RD as (R0 & D0).
-      destruct (sd_pop s) as [[[c q'] ps]|] eqn:Pop; cbn [fst snd]; [|split; [exact Hsame|apply Hcons; reflexivity]].
-      destruct (sd_pop_cnt _ _ _ _ Pop) as (P & Hl & Hl' & Hps).
-      assert (Hinv' : forall b, sd_inv (mkSd q' ps (sd_inflight s) (sd_closed s) b false false (sd_overlapped s))).
-      { intros b. inv6; triv.
+      destruct (sd_pop s) as [[[[c q'] ps] snt]|] eqn:Pop; cbn [fst snd]; [|split; [exact Hsame|apply Hcons; reflexivity]].
+      destruct (sd_pop_cnt _ _ _ _ _ Pop) as (P & Hl & Hl' & Hps).
+      assert (Hinv' : forall b, sd_inv (mkSd (sd_started s) (sd_inflight s) ps snt (sd_failing s) q' (sd_closed s) b false false
+                                             (sd_overlapped s))).
+      { intros b. inv7; triv.
         all: intros Hp; assert (H : sd_parked s <> []) by (intros E; apply Hp; auto); rewrite (Hl' H); auto. }
       destruct (negb (sd_linger_pos cfg) || Nat.eqb (length (sd_batch s ++ [c])) (sd_max cfg)); cbn [fst snd].
       + split; [apply Hinv'|]. cons_tac. specialize (P x). lia.
@@ -121,45 +146,53 @@ Section Shutdown.
       destruct (sd_run_done s || sd_draining s || negb (sd_linger_pos cfg)) eqn:RD; cbn [fst snd];
         [split; [exact Hsame|apply Hcons; reflexivity]|].
       apply orb_false_iff in RD. destruct RD as (RD & _). apply orb_false_iff in RD. destruct RD as (R0 & D0).
-      split; [inv6; triv|]. cons_tac. lia.
+      split; [inv7; triv|]. cons_tac. lia.
     - (* Close *)
       destruct (sd_closed s) eqn:C; cbn [fst snd]; [split; [exact Hsame|apply Hcons; reflexivity]|].
       split.
-      + inv6; triv;
+      + inv7; triv;
           first [ solve [intros _; destruct (sd_inflight s); [reflexivity|discriminate]]
                 | solve [intros H; destruct (sd_inflight s); [auto|discriminate]]
                 | solve [intros [H|H]; [specialize (He (or_introl H))|specialize (He (or_intror H))]; congruence]
-                | solve [intros H; specialize (He (or_introl H)); congruence] ].
+                | solve [intros H; specialize (He (or_introl H)); congruence]
+                | solve [intros W H; specialize (He (or_introl H)); congruence] ].
       + cons_tac. lia.
     - (* Run takes the close branch *)
       destruct (sd_closed s && negb (sd_run_done s) && negb (sd_draining s)) eqn:G; cbn [fst snd];
         [|split; [exact Hsame|apply Hcons; reflexivity]].
       apply andb_true_iff in G. destruct G as (G & D0). apply andb_true_iff in G. destruct G as (C & R0).
       apply negb_true_iff in R0. apply negb_true_iff in D0.
-      split; [inv6; triv|]. cons_tac. lia.
+      split; [inv7; triv|]. cons_tac. lia.
     - (* drain one *)
       destruct (sd_draining s) eqn:D; cbn [fst snd]; [|split; [exact Hsame|apply Hcons; reflexivity]].
-      destruct (sd_pop s) as [[[c q'] ps]|] eqn:Pop; cbn [fst snd]; [|split; [exact Hsame|apply Hcons; reflexivity]].
-      destruct (sd_pop_cnt _ _ _ _ Pop) as (P & Hl & Hl' & Hps).
+      destruct (sd_pop s) as [[[[c q'] ps] snt]|] eqn:Pop; cbn [fst snd]; [|split; [exact Hsame|apply Hcons; reflexivity]].
+      destruct (sd_pop_cnt _ _ _ _ _ Pop) as (P & Hl & Hl' & Hps).
       pose proof (Hf (or_intror eq_refl)) as Hbatch. pose proof (He (or_intror eq_refl)) as Hclosed.
       split.
-      + inv6; triv.
+      + inv7; triv.
         all: intros Hp; assert (H : sd_parked s <> []) by (intros E; apply Hp; auto); rewrite (Hl' H); auto.
       + cons_tac. specialize (P x). lia.
     - (* drain ends *)
       destruct (sd_draining s) eqn:D; cbn [fst snd]; [|split; [exact Hsame|apply Hcons; reflexivity]].
       destruct (sd_q s) as [|y q] eqn:Q; cbn [fst snd]; [|split; [exact Hsame|apply Hcons; reflexivity]].
+      destruct (negb (sd_wait_for_adders cfg) || Nat.eqb (sd_adding s) 0) eqn:Rule; cbn [fst snd];
+        [|split; [exact Hsame|apply Hcons; reflexivity]].
       pose proof (Hf (or_intror eq_refl)) as Hbatch. pose proof (He (or_intror eq_refl)) as Hclosed.
       assert (Hpk : sd_parked s = []).
       { destruct (sd_parked s) eqn:P; [reflexivity|]. specialize (Hb ltac:(discriminate)). cbn in Hb. lia. }
-      split; [inv6; triv|]. cons_tac. rewrite Q. cnt_norm. lia.
+      split.
+      + inv7; triv.
+        (* the drain rule of the code as it is: nobody is between increment and decrement *)
+        intros W _. rewrite W in Rule. cbn in Rule. apply Nat.eqb_eq in Rule. unfold sd_adding in Rule.
+        destruct (sd_inflight s); [auto|cbn in Rule; lia].
+      + cons_tac. rewrite Q. cnt_norm. lia.
   Qed.
 
   Lemma sd_run_ok : forall evs s,
     sd_inv s ->
     let s' := fst (sd_run cfg s evs) in
     let o := snd (sd_run cfg s evs) in
-    sd_inv s' /\ forall x, cnt x (sd_pending s) + cnt x (sd_checked evs) = cnt x (done_ids o) + cnt x (sd_pending s').
+    sd_inv s' /\ forall x, cnt x (sd_pending s) + cnt x (sd_submitted evs) = cnt x (done_ids o) + cnt x (sd_pending s').
   Proof.
     induction evs as [|ev evs IH]; intros s Hi; cbn [sd_run].
     - cbn. split; [exact Hi|]. intros x. cnt_norm. lia.
@@ -168,59 +201,82 @@ Section Shutdown.
       pose proof (IH s1 Hi1) as (Hi2 & P2).
       destruct (sd_run cfg s1 evs) as [s2 o2]. cbn [fst snd] in *.
       split; [exact Hi2|]. intros x. specialize (P1 x). specialize (P2 x).
-      change (sd_checked (ev :: evs)) with (ev_checked ev ++ sd_checked evs).
+      change (sd_submitted (ev :: evs)) with (ev_submitted ev ++ sd_submitted evs).
       unfold done_ids in *. rewrite map_app. rewrite !cnt_app. lia.
   Qed.
 
   Lemma sd_inv_init : sd_inv sd_init.
-  Proof. unfold sd_init. inv6; triv; cbn; try lia; intros; split; reflexivity. Qed.
+  Proof. unfold sd_init. inv7; triv; cbn; try lia; intros; repeat split; reflexivity. Qed.
 
   Lemma perm_of_cnt (l l' : list N) : (forall x, cnt x l = cnt x l') -> Permutation l l'.
   Proof. intros H. apply (Permutation_count_occ N.eq_dec). exact H. Qed.
 
-  (* At most once, under every interleaving: the calls whose Add has started are, as a multiset, the completed ones
-     plus the ones still on their way (in Add, parked, queued, in the batch). *)
+  (* At most once, under every interleaving and either drain rule: the calls whose Add has started are, as a multiset,
+     the completed ones plus the ones still on their way (in Add, parked, queued, in the batch). *)
   Theorem sd_conservation : forall evs,
-    Permutation (sd_checked evs)
+    Permutation (sd_submitted evs)
                 (done_ids (snd (sd_run cfg sd_init evs)) ++ sd_pending (fst (sd_run cfg sd_init evs))).
   Proof.
     intros evs. apply perm_of_cnt. intros x.
     pose proof (proj2 (sd_run_ok evs sd_init sd_inv_init) x) as P. cbn in P. rewrite cnt_app. exact P.
   Qed.
 
-  (* Exactly once with Close: if no Add was between its check and its send when Close happened (Add happens before
-     Close -- enqueued or parked in the channel -- or after it), then once Run has returned every call has completed
-     exactly once. *)
-  Theorem sd_exactly_once_with_close : forall evs,
+  (* Exactly once, at full strength, for the code as it is: once Run has returned and every started Add has returned,
+     every call whose Add started has completed exactly once -- whatever the interleaving of Adds, Run and Close. *)
+  Theorem sd_exactly_once_with_close : sd_wait_for_adders cfg = true -> forall evs,
+    sd_run_done (fst (sd_run cfg sd_init evs)) = true ->
+    sd_adds_returned (fst (sd_run cfg sd_init evs)) ->
+    Permutation (sd_submitted evs) (done_ids (snd (sd_run cfg sd_init evs))).
+  Proof.
+    intros W evs Hd (R1 & R2 & R3 & R4 & R5).
+    pose proof (sd_conservation evs) as P.
+    pose proof (sd_run_ok evs sd_init sd_inv_init) as ((_ & _ & _ & _ & Hf & _ & Hn) & _).
+    destruct (Hn W Hd) as (_ & _ & Hq). unfold sd_pending in P.
+    rewrite R1, R2, R3, R5, Hq, (Hf (or_introl Hd)) in P. cbn in P. now rewrite app_nil_r in P.
+  Qed.
+
+  (* What held of the code as it was found (either rule): exactly once provided no Add was between its closed-check and
+     its send at the moment of Close. *)
+  Theorem sd_exactly_once_no_overlap : forall evs,
     sd_overlapped (fst (sd_run cfg sd_init evs)) = false ->
     sd_run_done (fst (sd_run cfg sd_init evs)) = true ->
-    Permutation (sd_checked evs) (done_ids (snd (sd_run cfg sd_init evs))).
+    sd_adds_returned (fst (sd_run cfg sd_init evs)) ->
+    Permutation (sd_submitted evs) (done_ids (snd (sd_run cfg sd_init evs))).
   Proof.
-    intros evs Ho Hd.
+    intros evs Ho Hd (R1 & R2 & R3 & R4 & R5).
     pose proof (sd_conservation evs) as P.
-    pose proof (sd_run_ok evs sd_init sd_inv_init) as ((_ & _ & Ha & He & Hf & Hg) & _).
-    destruct (Hg Hd Ho) as (Hp & Hq). unfold sd_pending in P.
-    rewrite (Ha (He (or_introl Hd)) Ho), Hp, Hq, (Hf (or_introl Hd)) in P. cbn in P. now rewrite app_nil_r in P.
+    pose proof (sd_run_ok evs sd_init sd_inv_init) as ((_ & _ & _ & _ & Hf & Hg & _) & _).
+    destruct (Hg Hd Ho) as (_ & Hq). unfold sd_pending in P.
+    rewrite R1, R2, R3, R5, Hq, (Hf (or_introl Hd)) in P. cbn in P. now rewrite app_nil_r in P.
   Qed.
 End Shutdown.
 
-(* The overlap: Add(1) passes the closed check; Close; Run takes the close branch, finds the queue empty and returns;
-   Add(1) enqueues.  Nobody will ever receive it: call 1 never completes. *)
-Theorem sd_overlap_never_completes_refuted :
-  exists cfg evs, 0 < sd_cap cfg /\
+(* The drain rule of the code as it was found: Add(1) passes the closed check; Close; Run takes the close branch, finds
+   the queue empty and returns; Add(1) enqueues and returns.  Run and every Add have returned; call 1 never completes. *)
+Theorem sd_old_drain_rule_refuted :
+  exists cfg evs, 0 < sd_cap cfg /\ sd_wait_for_adders cfg = false /\
     let (s, o) := sd_run cfg sd_init evs in
-    sd_run_done s = true /\ sd_inflight s = [] /\ sd_parked s = [] /\ sd_q s = [1%N] /\ done_ids o = [] /\
-    sd_overlapped s = true.
+    sd_run_done s = true /\ sd_adds_returned s /\ sd_q s = [1%N] /\ sd_submitted evs = [1%N] /\ done_ids o = [].
 Proof.
-  exists (mkSdCfg 4 false 10), [EAddCheck 1%N; EClose; ERunClose; EDrainEnd; EAddSend 1%N].
-  split; [cbn; lia|]. vm_compute. repeat split.
+  exists (mkSdCfg 4 false 10 false),
+         [EAddStart 1%N; EAddCheck 1%N; EClose; ERunClose; EDrainEnd; EAddSend 1%N; EAddFinish 1%N].
+  split; [cbn; lia|]. split; [reflexivity|]. vm_compute. repeat split.
 Qed.
 
+(* the same schedule under the rule of the code as it is: Run keeps draining until the Add is through *)
+Example sd_new_drain_rule_example :
+  let cfg := mkSdCfg 4 false 10 true in
+  let evs := [EAddStart 1; EAddCheck 1; EClose; ERunClose; EDrainEnd; EAddSend 1; EAddFinish 1; EDrainEnd; EDrainOne; EDrainEnd]%N in
+  snd (sd_run cfg sd_init evs) = [(1%N, SdShut)] /\ sd_run_done (fst (sd_run cfg sd_init evs)) = true /\
+  sd_adds_returned (fst (sd_run cfg sd_init evs)).
+Proof. vm_compute. repeat split. Qed.
+
 Example sd_close_example :
-  let cfg := mkSdCfg 2 false 10 in
+  let cfg := mkSdCfg 2 false 10 true in
   (* 0 is being completed; 1 and 2 fill the queue; 3 is parked in the send; Close; 4 comes after Close *)
-  let evs := [EAddCheck 0; EAddSend 0; ERunRecv; EAddCheck 1; EAddSend 1; EAddCheck 2; EAddSend 2; EAddCheck 3; EAddSend 3;
-              EClose; EAddCheck 4; ERunRecv; ERunClose; EDrainOne; EDrainOne; EDrainEnd]%N in
+  let add c := [EAddStart c; EAddCheck c; EAddSend c; EAddFinish c; EAddFail c] in
+  let evs := (add 0 ++ [ERunRecv] ++ add 1 ++ add 2 ++ add 3 ++ [EClose] ++ add 4 ++
+              [ERunRecv; ERunClose; EDrainOne; EDrainOne; EDrainEnd; EAddFinish 3; EDrainEnd])%N in
   snd (sd_run cfg sd_init evs) = [(0, SdOk); (4, SdShut); (1, SdOk); (2, SdShut); (3, SdShut)]%N /\
-  sd_overlapped (fst (sd_run cfg sd_init evs)) = false /\ sd_run_done (fst (sd_run cfg sd_init evs)) = true.
+  sd_run_done (fst (sd_run cfg sd_init evs)) = true /\ sd_adds_returned (fst (sd_run cfg sd_init evs)).
 Proof. vm_compute. repeat split. Qed.
